@@ -73,9 +73,11 @@ def describe_result(r):
     return {"k": "other", "cls": cls, "raw": ["none", 0]}
 
 
-def _seq_of(cmds):
+def _seq_of(cmds, flag=None):
     """a library-style sequence (generator) yielding the given commands and returning their responses"""
     def gen():
+        if flag is not None:
+            flag["started"] = True
         out = []
         for c in cmds:
             r = yield c
@@ -274,8 +276,9 @@ class Run:
                     r = await d.send(x, **kw)
                     res["results"].append(describe_result(r))
             else:
-                seq = _seq_of(cmds)
-                self.closed_seqs[name] = seq
+                flag = {"started": False}
+                seq = _seq_of(cmds, flag)
+                self.closed_seqs[name] = (seq, flag)
                 rs = await d.run_sequence(seq)
                 res["results"] = [describe_result(r) for r in (rs or [])]
         except asyncio.CancelledError:
@@ -283,8 +286,9 @@ class Run:
         except BaseException as e:  # noqa: recorded
             res["exc"] = type(e).__name__
         if name in self.closed_seqs:
-            g = self.closed_seqs[name]
-            res["closed"] = 1 if g.gi_frame is None else 0
+            g, flag = self.closed_seqs[name]
+            # a sequence that was never started (cancelled while still waiting for the lock) has nothing to close
+            res["closed"] = 1 if (g.gi_frame is None or not flag["started"]) else 0
         res["t1"] = round(self.loop.time(), 6)
         self.callers[name]["_res"] = res
 
